@@ -118,8 +118,11 @@ def pending_ok(ev, st):
         if e[0] == "G" and e[1] is False:
             full = True
             break
-    if st["last_I"] == "Pending" and (full or st["stream"] == "None" or st["up_pending"]):
-        return True, "inner Pending & (%s)" % ("full" if full else "upstream gone" if st["stream"] == "None" else "upstream Pending this call")
+    if st["stream"] == "None" or st["up_ended"]:
+        # the property's own disjunct "upstream has ended" (whether Pending is right then is C10's termination clause)
+        return True, "upstream has ended"
+    if st["last_I"] == "Pending" and (full or st["stream"] == "None" or st["up_pending"] or st["up_ended"]):
+        return True, "inner Pending & (%s)" % ("full" if full else "upstream gone" if (st["stream"] == "None" or st["up_ended"]) else "upstream Pending this call")
     if st["last_I"] == "None" and st["up_pending"] and st["stream"] == "Some":
         return True, "nothing in flight & upstream Pending this call"
     return False, "last inner=%s full=%s stream=%s up_pending=%s" % (st["last_I"], full, st["stream"], st["up_pending"])
